@@ -32,6 +32,7 @@ def run(ctx):
     ctx.props("C02")
     n_seq = 120 if ctx.tier == "quick" else 5000
     cases = cc.gen_sequences(ctx, impl, n_seq, 30)
+    cases += cc.published_boundary_cases(impl)
     def reference(fname, v0, v1, app, body):
         try:
             return ref.encode_sub(fname, v0, v1, app, [(mn_of(impl, fname, n), lv) for n, lv in body])
